@@ -152,9 +152,10 @@ def step (c impl : String) : String :=
     let a1 := listUsers w f cs.maxDepth { lastWins := true }
     let a2 := listUsers w f cs.maxDepth { lastWins := false }
     let notes := (a1.notes ++ a2.notes).eraseDups
-    let allowed := (renderAnswer a1 ++ renderAnswer a2).eraseDups
+    -- errors dropped by an exclusion that returned on `subtractHasCycle` may surface (pool cancellation)
+    let allowed := (renderAnswer a1 ++ renderAnswer a2 ++ (a1.swallowed ++ a2.swallowed).map renderErr).eraseDups
     let clashy := notes.contains "status-clash"
-    let modelErr := !(a1.errs ++ a2.errs).isEmpty
+    let modelErr := !(a1.errs ++ a2.errs ++ a1.swallowed ++ a2.swallowed).isEmpty
     -- 0. the two specifications agree on every subject in sight (matching the filter: the property is
     -- about those; LU-D entries are judged by the filter test)
     let subjects := ((subjects w f) ++ (outs.flatMap (fun o => (parseOut o).getD [])).filter (matchesFilter f)).eraseDups
